@@ -37,6 +37,7 @@ type PtrVal struct {
 type SliceVal struct {
 	Obj           *Object // nil: nil slice; Obj.Val is *ArrayVal
 	Off, Len, Cap int
+	SymLen        *smt.Term // set only by zzSymLen*: a slice that is never indexed, with a symbolic length
 }
 
 type StructVal struct{ F []Value }
